@@ -370,6 +370,31 @@ func runC18(c *Ctx) {
 						}
 					}
 				case *ssa.Extract:
+					// (data, err) := conversion helper(field, t, …): every value the helper hands back is nil or
+					// the datatype.Type asserted out of a reflect value it made with reflect.New(t)
+					if hc, isCall := x.Tuple.(*ssa.Call); isCall {
+						if h := flow.StaticCallee(hc); h != nil && h.Blocks != nil && c.P.IsLibrary(h) && pkgOf(h).Path() == pkgDiam {
+							good, n := true, 0
+							for _, rv := range flow.ReturnValues(h, x.Index) {
+								if flow.IsNilConst(rv) {
+									continue
+								}
+								n++
+								ex2, isEx := rv.(*ssa.Extract)
+								if !isEx {
+									good = false
+									continue
+								}
+								ta2, isTA := ex2.Tuple.(*ssa.TypeAssert)
+								if !isTA || !viaNew(ta2.X, 0) {
+									good = false
+								}
+							}
+							if good && n > 0 {
+								return
+							}
+						}
+					}
 					ta, ok := x.Tuple.(*ssa.TypeAssert)
 					if !ok {
 						bad = "the AVP's data comes from " + short(x.Tuple.String(), 50)
